@@ -844,8 +844,8 @@ theorem tie_withCors (s : Server) (m p : String) :
       "}"] ∧
     newCorsRouterStmts = ["return &corsRouter{ Router: router, middleware: cors.Middleware(headerFn, origins...), }"] ∧
     corsRouterServeStmts = ["c.middleware(c.Router.ServeHTTP)(w, r)"] ∧
-    s.serveHTTP m p = (if s.cors && condCorsPreflight m then .preflight else .router (s.router.serveHTTP m p)) ∧
-    condCorsNAOptions m = condCorsPreflight m := ⟨rfl, rfl, rfl, rfl, rfl⟩
+    (∀ ws, wrapServe s.router m p (.cors :: ws) = (if condCorsPreflight m then .preflight else wrapServe s.router m p ws)) ∧
+    condCorsNAOptions m = condCorsPreflight m := ⟨rfl, rfl, rfl, fun _ => rfl, rfl⟩
 
 /-! ### round 5c: every structure `ServeHTTP` reads and `Handle` writes (class of seeded change C09-9) -/
 
@@ -889,5 +889,52 @@ theorem tie_access_serve :
     treeAddAccess = [("root", "read", 2, "t.root")] ∧
     treeSearchAccess = [("next", "call", 1, "t.next(t.root, route[1:], &result)"), ("root", "read", 1, "t.root")] := by
   refine ⟨by decide, by decide, by decide, by decide, rfl, rfl, rfl, rfl, rfl⟩
+
+/-- **the other router wrappers** (model `RunOpt.corsHeaders` / `.customCors` / `.fileServer`, `Wrapper`, `wrapServe`,
+`canServe`): `WithCorsHeaders` and `WithCustomCors` are wired exactly like `WithCors` (not-allowed handler first, then
+the same `newCorsRouter`); `WithFileServer` wraps the router in a `fileServingRouter` whose middleware serves the file
+iff `createServeChecker` says so — `GET`, RAW path below `dir/`, the file exists — and otherwise calls `next`
+unchanged; `ensureTrailingSlash` appends the slash only when it is missing. -/
+theorem tie_wrappers (d : String) (ns : List String) (m p : String) (pr : PatRouter) (ws : List Wrapper) :
+    withCorsHeadersStmts.take 5 = [
+      "const allDomains = \"*\"",
+      "return func(server *Server){...}",
+      "func{",
+      "server.router.SetNotAllowedHandler(cors.NotAllowedHandler(nil, allDomains))",
+      "server.router = newCorsRouter(server.router, func(header http.Header){...}, allDomains)"] ∧
+    withCustomCorsStmts = [
+      "return func(server *Server){...}",
+      "func{",
+      "server.router.SetNotAllowedHandler(cors.NotAllowedHandler(notAllowedFn, origin...))",
+      "server.router = newCorsRouter(server.router, middlewareFn, origin...)",
+      "}"] ∧
+    withFileServerStmts = [
+      "return func(server *Server){...}",
+      "func{",
+      "server.router = newFileServingRouter(server.router, path, fs)",
+      "}"] ∧
+    newFileServingRouterStmts = ["return &fileServingRouter{ Router: router, middleware: fileserver.Middleware(path, fs), }"] ∧
+    fileServingRouterServeStmts = ["f.middleware(f.Router.ServeHTTP)(w, r)"] ∧
+    fileMiddlewareStmts.drop 7 = [
+      "if canServe(r) {",
+      "r.URL.Path = r.URL.Path[len(pathWithoutTrailSlash):]",
+      "fileServer.ServeHTTP(w, r)",
+      "}",
+      "else{",
+      "next(w, r)",
+      "}",
+      "}",
+      "}"] ∧
+    serveCheckerStmts.take 2 = ["pathWithTrailSlash := ensureTrailingSlash(path)", "fileChecker := createFileChecker(fs)"] ∧
+    canServe d ns m p =
+      (if condServeChecker m (hasPrefix p (ensureTrailingSlash d)) (ns.contains (fileName (fileRem d p)))
+       then some (fileName (fileRem d p)) else none) ∧
+    wrapServe pr m p (.files d ns :: ws) =
+      (match canServe d ns m p with | some f => .file f | none => wrapServe pr m p ws) ∧
+    ensureTrailingSlash d = (if ensureTrailingSlashBody (d.toList.getLast? == some '/') = 0 then d else d ++ "/") ∧
+    ensureTrailingSlashBodyReturns = ["path", "path + \"/\""] := by
+  refine ⟨rfl, rfl, rfl, rfl, rfl, rfl, rfl, rfl, rfl, ?_, rfl⟩
+  unfold ensureTrailingSlash ensureTrailingSlashBody
+  cases (d.toList.getLast? == some '/') <;> rfl
 
 end GoZero.C09.Tie
